@@ -6,6 +6,7 @@ import (
 	"fmt"
 	"os"
 	"regexp"
+	"sort"
 	"strconv"
 	"strings"
 	"testing"
@@ -103,7 +104,17 @@ func worldGen(tape *simrt.Tape, tier, focus string) *worldCase {
 	if c.NCases >= 2 && tape.Bool(1, 4, "skip") {
 		c.SkipPatterns = []string{fmt.Sprintf("**/c%d", tape.Choose(c.NCases, "skipcase"))}
 	}
-	if focus == "c05" && tape.Bool(1, 4, "runpat") {
+	if focus == "c05" && tape.Bool(1, 3, "exactpat") {
+		// patterns that tell a permutation from its gRPC-peer siblings: an exact
+		// full name (resolved against the expansion below) or a marker component
+		pat := []string{"@exact:" + strconv.Itoa(tape.Choose(64, "exactidx")), "**/(grpc server impl)/**", "**/(grpc client impl)/**",
+			"@exact:" + strconv.Itoa(tape.Choose(64, "exactidx2"))}[tape.Choose(4, "exactkind")]
+		if tape.Bool(1, 2, "exact-as-skip") {
+			c.SkipPatterns = append(c.SkipPatterns, pat)
+		} else {
+			c.RunPatterns = append(c.RunPatterns, pat)
+		}
+	} else if focus == "c05" && tape.Bool(1, 4, "runpat") {
 		switch tape.Choose(3, "runpatkind") {
 		case 0:
 			c.RunPatterns = []string{fmt.Sprintf("**/c%d", tape.Choose(c.NCases, "runcase"))}
@@ -247,14 +258,50 @@ func worldBody(tape *simrt.Tape, o simwork.Opts, res *simwork.Result, focus stri
 		res.Invalid = append(res.Invalid, "library: "+err.Error())
 		return
 	}
+	// resolve "@exact:<j>" placeholders to the j-th permutation name
+	allPerms := lib.allPermutations(cs.RefClient, cs.RefServer)
+	permNames := make([]string, 0, len(allPerms))
+	for _, tc := range allPerms {
+		permNames = append(permNames, tc.Request.TestName)
+	}
+	sort.Strings(permNames)
+	resolve := func(pats []string) []string {
+		var out []string
+		for _, p := range pats {
+			if strings.HasPrefix(p, "@exact:") {
+				j, _ := strconv.Atoi(strings.TrimPrefix(p, "@exact:"))
+				p = permNames[j%len(permNames)]
+			}
+			out = append(out, p)
+		}
+		return out
+	}
+	if os.Getenv("VERIF_DEBUG") != "" {
+		fmt.Fprintf(os.Stderr, "DEBUG patterns before resolve run=%q skip=%q nperm=%d\n", cs.RunPatterns, cs.SkipPatterns, len(permNames))
+	}
+	cs.RunPatterns, cs.SkipPatterns = resolve(cs.RunPatterns), resolve(cs.SkipPatterns)
+	flags.RunPatterns, flags.SkipPatterns = cs.RunPatterns, cs.SkipPatterns
 	filter := newFilter(parsePatterns(cs.RunPatterns), parsePatterns(cs.SkipPatterns))
 	selected := map[string]*conformancev1.TestCase{}
-	for _, tc := range lib.allPermutations(cs.RefClient, cs.RefServer) {
+	for _, tc := range allPerms {
 		if filter.accept(tc) {
 			selected[tc.Request.TestName] = tc
 		}
 	}
 
+	for _, p := range append(append([]string{}, cs.RunPatterns...), cs.SkipPatterns...) {
+		if !strings.Contains(p, "*") {
+			res.Probes["exact-name-pattern"]++
+		} else if strings.Contains(p, "(grpc") {
+			res.Probes["marker-pattern"]++
+		}
+	}
+	for name := range selected {
+		if strings.Contains(name, "(grpc") {
+			res.Probes["grpc-marked-permutation-selected"]++
+			break
+		}
+	}
 	verifStarterHook = w.hook
 	var (
 		runOK    bool
@@ -328,6 +375,11 @@ func worldBody(tape *simrt.Tape, o simwork.Opts, res *simwork.Result, focus stri
 	if runErr != nil {
 		// rejected before anything ran (e.g. a pattern that matches nothing): legal, nothing to judge
 		res.Probes["run-rejected"]++
+		msg := runErr.Error()
+		if len(msg) > 60 {
+			msg = msg[:60]
+		}
+		res.Probes["rejected: "+strings.ReplaceAll(msg, "\n", " ")]++
 		if len(w.clients) > 0 {
 			viol(focus+"/error-after-start", "Run returned an error although peers had been started: %v", runErr)
 		}
